@@ -167,7 +167,7 @@ theorem insert_spec (H : Bytes → UInt32) (d : Dict) (hd : DInv H d) (v : Bytes
         (by rw [onBucket_resize]; exact armed_resize_ne _ hrs1) p5 hnew (take_nonul v len hv)
       exact ⟨hD, trivial, hR⟩
 
-/-- `dict_insert` with `fixes/F50.diff` against the specification: no hypothesis on the hash function -/
+/-- `dict_insert` with `fixes/F110.diff` against the specification: no hypothesis on the hash function -/
 theorem insertFixed_spec (H : Bytes → UInt32) (d : Dict) (hd : DInv H d) (v : Bytes) (len : Nat) (zc alias : Bool)
     (hv : (0 : UInt8) ∉ v) (hl : len ≤ v.length) :
     DInv H (d.insertFixed H v len zc alias).2 ∧ (d.insertFixed H v len zc alias).1 = .ok (v.take len) ∧
